@@ -289,7 +289,7 @@ impl<W: io::Write> Writer<W> {
             index_block_offset,
             compression_type: self.compression_type,
             entries_count: self.entries_count,
-            index_levels: self.index_block_writers.len() as u8 - 1,
+            index_levels: (self.index_block_writers.len() - 1) as u8,
         };
 
         metadata.write_into(&mut self.writer)?;
